@@ -1,4 +1,5 @@
 import Anndb.Model.Recovery
+import Anndb.Model.RaftLoop
 import Anndb.Generated
 /-!
 # C03 — acknowledged writes survive a crash at any instant and restart
@@ -152,6 +153,11 @@ installs the stored snapshot before the loop runs (regenerated from the sources)
 theorem order_in_code :
     Generated.raftSaveBeforeApply = true ∧ Generated.raftStartInstallsSnapshot = true ∧
     Generated.raftSnapshotAtLastApplied = true := by decide
+
+/-- for a replicated group the quorum argument (trusted to etcd/raft) needs every replica to store
+an append before acknowledging it: the whole statement order of the loop is the one proved in C05 -/
+theorem follower_acks_after_save :
+    Generated.readyLoopOrder.map RaftLoop.parseStmt = RaftLoop.canonical := by decide
 
 /-! ## the mutated order loses an acknowledged write -/
 
